@@ -26,6 +26,13 @@ constexpr bool TRIVIAL = true;
 using Elem = tracked<int>; static Elem mk(long id) { return Elem(int(id)); } static long id_of(Elem const& e) { return e.get(); }
 using Other = int; static Other mko(long id) { return int(id); }
 constexpr bool TRIVIAL = false;
+#elif H_T == 3
+// trivially destructible and trivially copyable, but NOT trivially default constructible: a value-initialised element has id 0, raw (poisoned) storage does not
+struct Cell { int v = 1; Cell() = default; Cell(int x) : v{x} {}  /* NOLINT */ friend bool operator==(Cell const& a, Cell const& b) { return a.v == b.v; } friend bool operator!=(Cell const& a, Cell const& b) { return a.v != b.v; } };
+using Elem = Cell; static Elem mk(long id) { return Cell(int(id) + 1); } static long id_of(Elem const& e) { return long(e.v) - 1; }
+using Other = int; static Other mko(long id) { return int(id) + 1; }
+constexpr bool TRIVIAL = false;
+static_assert(std::is_trivially_destructible_v<Cell> && !std::is_trivially_default_constructible_v<Cell>);
 #else
 using Elem = std::string; static Elem mk(long id) { return std::string(20, 'v') + std::to_string(id); } static long id_of(Elem const& e) { return e.empty() ? 0 : std::atol(e.c_str() + 20); }
 using Other = char const*; static std::vector<std::string>& opool() { static std::vector<std::string> p; return p; } static Other mko(long id) { opool().push_back(std::string(20, 'v') + std::to_string(id)); return opool().back().c_str(); }
@@ -155,17 +162,17 @@ template<int DD> void history_t(Case& c) {
 			case 4: { if(!B.a || a == b) break; opk = "move-ctor"; d << opk << "(" << a << "<-" << b << ")"; cur_op = d.str(); op(opk); softcfg().opk = opk; A.a.reset(); long c0 = registry().special();
 				A.a.emplace(std::move(*B.a)); if(registry().special() != c0) V("C04:move-ctor:touched-elements", "move construction copied/moved/assigned " + std::to_string(registry().special() - c0) + " elements");
 				A.m = B.m; B.m = empty_model(); A.aid = B.aid; A.agen = B.agen; if(D == 0) { B.m = A.m; B.m.unspec = true; } break; }
-			case 5: { if(!B.a || a == b) break; auto al = pick_alloc(g); if(!AEQ && al.id != B.aid) { count("skipped:move-ctor(alloc)-unequal"); if(PROP != "C10") break; }
+			case 5: { if(!B.a || a == b) break; auto al = pick_alloc(g); if(!AEQ && al.id != B.aid) { count("skipped:move-ctor(alloc)-unequal"); if(!VARY_ALLOC) break; }
 				opk = (AEQ || al.id == B.aid) ? "move-ctor(alloc)" : "move-ctor(unequal-alloc)"; d << opk << "(" << a << "<-" << b << ")"; cur_op = d.str(); op(opk); softcfg().opk = opk; A.a.reset(); A.a.emplace(std::move(*B.a), al); A.m = B.m; A.aid = al.id; A.agen = 0;
-				if(AEQ || al.id == B.aid) { B.m = empty_model(); if(D == 0) { B.m = A.m; B.m.unspec = true; } } else { adopt(B); } break; }
+				B.m = empty_model(); if(D == 0) { B.m = A.m; B.m.unspec = true; } break; }  // (also between unequal allocators, where the elements are moved one by one: the source is left empty)
 			case 6: case 7: { if(!A.a || !B.a) break; opk = a == b ? "self-copy-assign" : (A.m.ext == B.m.ext ? "copy-assign(same-extents)" : (A.m.n() == 0 ? "copy-assign(to-empty)" : "copy-assign(other-extents)")); d << opk << "(" << a << "<-" << b << ")"; cur_op = d.str(); op(opk); softcfg().opk = opk;
 				Elem const* before = A.a->data_elements(); Arr const& src = *B.a; *A.a = src; if(a == b && A.a->data_elements() != before) V("C04:self-copy-assign:reallocated", "self-assignment changed the storage");
 				if(a != b) { A.m = B.m; if(POCCA) { A.aid = B.aid; A.agen = B.agen; } had_assign_over_state = true; } break; }
-			case 8: { if(!A.a || !B.a || a == b) break; if(!AEQ && !POCMA && A.aid != B.aid) { count("skipped:move-assign-unequal"); if(PROP != "C10") break; }
+			case 8: { if(!A.a || !B.a || a == b) break; if(!AEQ && !POCMA && A.aid != B.aid) { count("skipped:move-assign-unequal"); if(!VARY_ALLOC) break; }
 				bool uneq = (!AEQ && !POCMA && A.aid != B.aid);
 				opk = uneq ? "move-assign(unequal-alloc)" : (A.m.n() == 0 ? "move-assign(to-empty)" : "move-assign"); d << opk << "(" << a << "<-" << b << ")"; cur_op = d.str(); op(opk); softcfg().opk = opk; long c0 = registry().special();
 				*A.a = std::move(*B.a); if(!uneq && registry().special() != c0) V("C04:move-assign:touched-elements", "move assignment copied/moved/assigned " + std::to_string(registry().special() - c0) + " elements");
-				A.m = B.m; if(POCMA) { A.aid = B.aid; A.agen = B.agen; } if(!uneq) { B.m = empty_model(); if(D == 0) { B.m = A.m; B.m.unspec = true; } } else { adopt(B); } had_assign_over_state = true; break; }
+				A.m = B.m; if(POCMA) { A.aid = B.aid; A.agen = B.agen; } B.m = empty_model(); if(D == 0) { B.m = A.m; B.m.unspec = true; } had_assign_over_state = true; break; }
 			case 9: if constexpr(DD >= 1) { if(!A.a || !B.a || a == b) break; if(!AEQ && !POCS && A.aid != B.aid) break; opk = "swap"; d << opk << "(" << a << "," << b << ")"; cur_op = d.str(); op(opk); softcfg().opk = opk; long c0 = registry().special();
 				if(g.chance(1, 2)) swap(*A.a, *B.a); else A.a->swap(*B.a); if(registry().special() != c0) V("C04:swap:touched-elements", "swap of arrays touched elements"); std::swap(A.m, B.m); if(POCS) { std::swap(A.aid, B.aid); std::swap(A.agen, B.agen); } break; } break;
 			case 10: case 11: { if(!A.a || !B.a || a == b) break; Model vm; MV mv; int k = int(g.below(6)); if(!view_of(k, B.m, vm, mv)) break; static char const* VN[] = {"transposed", "rotated", "sliced", "strided", "unrotated", "inner-transposed"};
@@ -189,7 +196,8 @@ template<int DD> void history_t(Case& c) {
 				if(rv) { std::move(*A.a).reextent(make_extensions<D>(e)); } else if(fill) { A.a->reextent(make_extensions<D>(e), mk(fid)); } else { A.a->reextent(make_extensions<D>(e)); }
 				if(same && A.a->data_elements() != before) V("C06:" + opk + ":noop-reallocated", "reextent to the current extents changed data_elements()");
 				(void)noop;
-				if(rv && !same) { nm = filled(e, 0); nm.unspec = true; }  // the rvalue overload discards the contents by design: only extents/validity are required
+				if(rv && !same) { nm = filled(e, 0); nm.unspec = TRIVIAL;  // the rvalue overload discards the contents by design: the elements are value-initialised (model id 0) or, for trivial types, left unwritten
+					if(TRIVIAL && nm.n() > 0 && tuple_to_vec(A.a->sizes()) == e) { Elem const* p = A.a->data_elements(); bool wrote = false; for(L k = 0; k < nm.n(); ++k) if(!is_poison(p[k])) wrote = true; count("poison_checks"); if(wrote) V("C08:reextent(&&):wrote-trivial-elements", "the rvalue reextent wrote to elements of a trivially default-constructible type"); } }
 				else if(!fill && TRIVIAL && !same && nm.n() > 0) {  // new elements of a trivially default-constructible type are unspecified — and must not have been written (C08)
 					Elem const* p = A.a->data_elements(); bool wrote = false; for(L k = 0; k < nm.n(); ++k) if(isnew[std::size_t(k)]) { if(L(tuple_to_vec(A.a->sizes()) == e) && !is_poison(p[k])) wrote = true; nm.ids[std::size_t(k)] = id_of(p[k]); } count("poison_checks");
 					if(wrote) V("C08:reextent(x):wrote-trivial-elements", "reextent without a fill value wrote to new elements of a trivially default-constructible type"); }
